@@ -61,6 +61,8 @@ impl World for SeqVsPar {
             Kind::BigInit
         } else if self.prop == "C08" && g.chance(0.06) {
             Kind::Measures
+        } else if self.prop == "C18" {
+            Kind::Pso
         } else if self.prop == "C08" || self.prop == "C16" { *g.pick(&SHIPPED) } else { *g.pick(&crate::checks::tworld::all_kinds()) };
         let kind = if self.mix { Kind::EvalMix } else { kind };
         let opts = GenOpts { penalty: g.chance(0.3), max_iters: tier.pick(6, 15), evaluations_term: self.prop != "C16", log: true };
